@@ -266,7 +266,7 @@ def run(prop: str, tier: str) -> int:
             raise P.TLCError(f"non-vacuity: mutated generator '{bad}' was not rejected by TLC")
         r.cleanup()
     rep.stages.append({"stage": "non-vacuity: 4 mutated generators rejected by TLC"})
-    nseeds = 60 if quick else 5000
+    nseeds = 60 if quick else 12000
     ndefs = len(library(None))
     jobs, base = [], 0
     for di in range(ndefs):
